@@ -291,12 +291,39 @@ def gen_problems(tier):
         pr["pre"] = {"y": pr["rv"](pr["m"], 6), "eps": e1, "alpha": None if a1 == "default" else dyadic_below(1.0 / pr["lam"]),
                      "niter": r.choice([1, 3, 7]), "kinds": [a1, a2]}
         pr["api"] = "class"
+    # user-supplied decay array (perc=None): threshold at iteration i is decay[i]*eps*alpha/2
+    dk = [("const", 0.5), ("first2", 2.0), ("dec", None), ("const", 2.0), ("first2", 0.25), ("dec", None)]
+    for i in range(nextra):
+        kind, c = dk[i % len(dk)]
+        pr = mk(kind == "const" and i % 2 == 1, r.randint(2, 5), r.randint(2, 5), [1, 1, 2][i % 3] if not (kind == "const" and i % 2 == 1) else 1,
+                r.choice(["none", "zeros", "random"]), r.choice(["max", "half"]), "decay")
+        pr["decay"] = {"kind": kind, "c": c}
+        pr["eps_user"] = pr["eps"]
+        if kind == "const":
+            pr["eps"] = pr["eps_user"] * c      # the run must be plain ISTA/FISTA for eps*decay (descent, KKT for eps*decay)
     for pr in probs:
         del pr["rv"]
     return probs
 
 
-def run_solver(p, mode, niter, tol, want_its=True):
+def decay_array(p, niter):
+    d = p.get("decay")
+    if d is None:
+        return None
+    if d["kind"] == "const":
+        return d["c"] * np.ones(niter)
+    if d["kind"] == "first2":
+        a = np.ones(niter)
+        a[0] = d["c"]
+        return a
+    return np.array([2.0 ** -(i // 4) for i in range(niter)])     # decreasing, dyadic
+
+
+def decay_nonconst(p):
+    return p.get("decay") is not None and p["decay"]["kind"] != "const"
+
+
+def run_solver(p, mode, niter, tol, want_its=True, cb_override=None):
     """Runs the REAL implementation; returns (iterates list, final x, alpha used, niter done)."""
     pylops, cs, sp = _pylops()
     A, y = p["A"], p["y"]
@@ -306,8 +333,12 @@ def run_solver(p, mode, niter, tol, want_its=True):
     x0 = None if p["x0"] is None else (p["x0"].copy() if p["R"] > 1 else p["x0"][:, 0].copy())
     its = []
     cb = (lambda x: its.append(np.array(x, copy=True))) if want_its else None
+    if cb_override is not None:
+        cb = cb_override
     cls = cs.ISTA if mode == 0 else cs.FISTA
     pre = p.get("pre")
+    epsu = p.get("eps_user", p["eps"])
+    dec = decay_array(p, niter)
     if p["api"] == "class" or p["alpha"] is None or pre is not None:
         s = cls(Op)
         if pre is not None:      # history: the same solver object has been used before
@@ -315,11 +346,11 @@ def run_solver(p, mode, niter, tol, want_its=True):
             s.solve(y1.copy(), niter=pre["niter"], eps=pre["eps"], alpha=pre["alpha"], tol=0.0)
         if cb is not None:
             s.callback = cb
-        x, nit, _ = s.solve(yy, x0=x0, niter=niter, SOp=SOp, eps=p["eps"], alpha=p["alpha"], tol=tol)
+        x, nit, _ = s.solve(yy, x0=x0, niter=niter, SOp=SOp, eps=epsu, alpha=p["alpha"], tol=tol, decay=dec)
         alpha = float(s.alpha)
     else:
         f = sp.ista if mode == 0 else sp.fista
-        x, nit, _ = f(Op, yy, x0=x0, niter=niter, SOp=SOp, eps=p["eps"], alpha=p["alpha"], tol=tol, callback=cb)
+        x, nit, _ = f(Op, yy, x0=x0, niter=niter, SOp=SOp, eps=epsu, alpha=p["alpha"], tol=tol, callback=cb, decay=dec)
         alpha = float(p["alpha"])
     return its, np.asarray(x), alpha, nit
 
@@ -350,6 +381,77 @@ def maxdiff(a, b, pad=False):
 def column_problem(p, j, alpha):
     return dict(p, R=1, y=p["y"][:, j:j + 1], x0=None if p["x0"] is None else p["x0"][:, j:j + 1], alpha=alpha, api="class",
                 pre=None if p.get("pre") is None else dict(p["pre"], y=p["pre"]["y"][:, j:j + 1]))
+
+
+def _same(a, b):
+    a, b = np.asarray(a), np.asarray(b)
+    return a.shape == b.shape and a.dtype == b.dtype and a.tobytes() == b.tobytes()
+
+
+def held_runs(p, niter):
+    """The caller keeps the array OBJECTS: (1) a callback that stores x itself (no copy), (2) manual
+    setup/step driving holding every array passed in and every array returned.  Findings: a held array
+    changed bitwise later on, a passed-in array was modified by step, x0 / y were modified, or the
+    objective along the HELD iterates increases."""
+    pylops, cs, _ = _pylops()
+    out = []
+    R = p["R"]
+    x0m = p["x0"] if p["x0"] is not None else np.zeros((p["n"], R), dtype=complex if p["cplx"] else float)
+    for mode in (0, 1):
+        name = "ISTA" if mode == 0 else "FISTA"
+        # (1) callback storing the object itself
+        hist, snaps = [], []
+
+        def cb(x):
+            hist.append(x)
+            snaps.append(np.array(x, copy=True))
+        run_solver(dict(p, api="class"), mode, niter, 0.0, cb_override=cb)
+        bad = [k for k in range(len(hist)) if not _same(hist[k], snaps[k])]
+        if bad:
+            out.append({"mode": mode, "how": "%s: iterate %d handed to the callback (stored without copy) was modified by a later iteration" % (name, bad[0] + 1)})
+        # (2) manual driving
+        A, y = p["A"], p["y"]
+        Op = pylops.MatrixMult(A.copy(), dtype="complex128" if p["cplx"] else "float64")
+        SOp = None if p.get("S") is None else pylops.MatrixMult(np.array(p["S"], dtype=float).copy())
+        yy = y.copy() if R > 1 else y[:, 0].copy()
+        x0 = None if p["x0"] is None else (p["x0"].copy() if R > 1 else p["x0"][:, 0].copy())
+        ykeep, x0keep = yy.copy(), None if x0 is None else x0.copy()
+        s = (cs.ISTA if mode == 0 else cs.FISTA)(Op)
+        x = s.setup(yy, x0=x0, niter=niter, SOp=SOp, eps=p.get("eps_user", p["eps"]), alpha=p["alpha"], tol=0.0, decay=decay_array(p, niter))
+        z = x.copy()
+        held, heldc = [], []
+        msg = None
+        for it in range(niter):
+            xin, xs = x, x.copy()
+            if mode == 0:
+                xnew, _ = s.step(xin)
+            else:
+                zin, zs = z, z.copy()
+                xnew, z, _ = s.step(xin, zin)
+                if msg is None and not _same(zin, zs):
+                    msg = "%s.step modified the auxiliary array z passed to it (iteration %d)" % (name, it)
+            if msg is None and not _same(xin, xs):
+                msg = "%s.step modified the array x passed to it (iteration %d): max change %.3g" % (name, it, float(np.abs(xin - xs).max()))
+            held.append(xnew)
+            heldc.append(xnew.copy())
+            x = xnew
+        if msg is None:
+            badh = [k for k in range(len(held)) if not _same(held[k], heldc[k])]
+            if badh:
+                msg = "%s: iterate %d returned by step was modified by a later step" % (name, badh[0] + 1)
+        if msg is None and not _same(yy, ykeep):
+            msg = "%s modified the data array y" % name
+        if msg is None and x0 is not None and not _same(x0, x0keep):
+            msg = "%s modified the caller's x0" % name
+        if mode == 0 and not decay_nonconst(p) and all(np.all(np.isfinite(v)) for v in held):
+            for j in range(R):
+                res = search_descent(p, j, x0m[:, j], [col(v, j, R) for v in held])
+                if res is not None:
+                    msg = (msg + "; " if msg else "") + "objective along the HELD iterates increases at iteration %d: %.12g -> %.12g" % res
+                    break
+        if msg:
+            out.append({"mode": mode, "how": msg})
+    return out
 
 
 def run_problems(probs, tier):
@@ -386,16 +488,20 @@ def run_problems(probs, tier):
                     dd = maxdiff(its, itf)
                     if dd > 1e-9:
                         recs.append({"kind": "reuse", "p": p, "mode": mode, "col": 0, "diff": dd, "alpha_reused": alpha, "alpha_fresh": af})
-                if p.get("S") is not None:
+                if p.get("S") is not None or decay_nonconst(p):
                     continue
                 # converged run (ISTA: default-like stopping rule tol=1e-10; FISTA: same cap, tol=0)
                 _, xf, _, nf = run_solver(p, mode, cap, 1e-10 if mode == 0 else 0.0, want_its=False)
                 fin[mode] = (xf, nf)
+            if p.get("pre") is None:
+                stats["held_runs"] = stats.get("held_runs", 0) + 1
+                for f in held_runs(p, niter):
+                    recs.append(dict(f, kind="alias", p=p, col=0))
         except Exception as e:      # the solver raised on a valid problem
             recs.append({"kind": "raised", "p": p, "col": 0, "err": "%s: %s" % (type(e).__name__, e),
                          "trace": traceback.format_exc()[-1500:]})
             continue
-        if p.get("S") is not None:
+        if p.get("S") is not None or decay_nonconst(p):
             continue
         conv = fin[0][1] < cap
         if not (np.all(np.isfinite(fin[0][0])) and np.all(np.isfinite(fin[1][0]))):
@@ -459,13 +565,14 @@ def emit_istaR(cid, rc):
     j = rc["col"]
     pairs = ["(%s, %s)" % (common.vlit(z), common.vlit(xn)) for z, xn in zip(zs_of(rc), rc["its"])]
     return ("{| ir_id := %d%%nat; ir_n := %d%%nat; ir_mode := %d%%nat; ir_A := %s; ir_y := %s; ir_alpha := %s; ir_alphac := %s; "
-            "ir_eps := %s; ir_x0 := %s; ir_betas := %s; ir_traj := %d%%nat; ir_pairs := [%s]; ir_its := [%s]; ir_S := %s |}"
+            "ir_eps := %s; ir_x0 := %s; ir_betas := %s; ir_traj := %d%%nat; ir_pairs := [%s]; ir_its := [%s]; ir_S := %s; ir_decay := %s |}"
             % (cid, p["n"], rc["mode"], common.mlit(p["A"]), common.vlit(p["y"][:, j]), q(rc["alpha"]),
                q(alphac_of(p, rc["alpha"])), q(p["eps"]), common.vlit(rc["x0"]),
                common.vlit(betas(len(rc["its"]))) if rc["mode"] == 1 else "[]",
-               0 if p.get("S") is not None else ((8 if rc["mode"] == 0 else 5) if p["alpha"] is not None else 3),
+               0 if (p.get("S") is not None or decay_nonconst(p)) else ((8 if rc["mode"] == 0 else 5) if p["alpha"] is not None else 3),
                ";\n ".join(pairs), ";\n ".join(common.vlit(v) for v in rc["its"]),
-               "[]" if p.get("S") is None else common.mlit(p["S"])))
+               "[]" if p.get("S") is None else common.mlit(p["S"]),
+               common.vlit(decay_array(p, len(rc["its"]))) if decay_nonconst(p) else "[]"))
 
 
 def emit_kktR(cid, rc):
@@ -513,6 +620,8 @@ def write_files(d, prefix, typ, idf, chk, items, per):
 # ------------------------------------------------------------------ search (pure implementation)
 def search_descent(p, j, x0, its):
     """first k with F(x_{k+1}) > F(x_k)(1+1e-12) on the implementation's own iterates (exact for real)."""
+    if decay_nonconst(p):
+        return None
     seq = [x0] + list(its)
     if p["cplx"]:
         F = [obj_c(p["A"], p["y"][:, j], p["eps"], v) for v in seq]
@@ -547,6 +656,7 @@ def prob_dict(p, j):
             "y_full": [[str(a) for a in r] for r in p["y"]], "R": p["R"], "col": j,
             "x0": None if p["x0"] is None else [[str(a) for a in r] for r in p["x0"]], "eps": p["eps"],
             "alpha": p["alpha"], "api": p["api"], "m": p["m"], "n": p["n"], "lam_max": p["lam"], "family": p.get("family"),
+            "eps_passed_to_solver": p.get("eps_user", p["eps"]), "decay": p.get("decay"),
             "SOp": None if p.get("S") is None else [[float(a) for a in r] for r in p["S"]],
             "previous_solve_on_same_object": None if pre is None else
             {"y": [[str(a) for a in r] for r in pre["y"]], "eps": pre["eps"], "alpha": pre["alpha"], "niter": pre["niter"], "kinds": pre["kinds"]}}
@@ -562,6 +672,7 @@ def prob_from(rp):
         pre = dict(pre, y=np.array([[cv(a) for a in r] for r in pre["y"]]))
     return {"cplx": rp["cplx"], "A": A, "y": y, "R": rp["R"], "x0": x0, "eps": rp["eps"], "alpha": rp["alpha"],
             "api": rp["api"], "m": rp["m"], "n": rp["n"], "lam": rp["lam_max"], "family": rp.get("family"),
+            "eps_user": rp.get("eps_passed_to_solver", rp["eps"]), "decay": rp.get("decay"),
             "S": None if rp.get("SOp") is None else np.array(rp["SOp"]), "pre": pre}
 
 
@@ -611,6 +722,12 @@ def replay(rp):
             res = search_step(p, j, mode, x0m[:, j], [col(v, j, p["R"]) for v in its], alpha)
             print("first iterate that is not soft(z + alpha Op^H(y - Op z), eps*alpha/2):", res)
             bad = res is not None
+    elif k == "alias":
+        p = prob_from(rp["problem"])
+        fs = held_runs(p, rp["niter"])
+        for f in fs:
+            print(f["how"])
+        bad = bool(fs)
     elif k == "columns":
         p = prob_from(rp["problem"])
         j, mode = rp["problem"]["col"], rp["mode"]
@@ -652,9 +769,11 @@ def replay(rp):
     return 1 if bad else 0
 
 
-def step_ref(p, j, alpha, z):
+def step_ref(p, j, alpha, z, k=0):
     """reference step in float (complex) or exact (real)"""
     A, y, eps = p["A"], p["y"][:, j], p["eps"]
+    if decay_nonconst(p):
+        eps = eps * float(decay_array(p, k + 1)[k])
     if p.get("S") is not None:
         S = np.asarray(p["S"], dtype=float)
         v = S.T @ (z + alpha * (A.T @ (y - A @ z)))
@@ -674,7 +793,7 @@ def search_step(p, j, mode, x0, its, alpha):
         if not np.all(np.isfinite(seq[k + 1])):
             return k, [str(v) for v in seq[k + 1]], ["(finite value expected)"]
         z = seq[k] if (mode == 0 or k == 0) else seq[k] + b[k - 1] * (seq[k] - seq[k - 1])
-        ref = step_ref(p, j, alpha, z)
+        ref = step_ref(p, j, alpha, z, k)
         if np.abs(ref - seq[k + 1]).max(initial=0) > 1e-9 * (1 + np.abs(ref).max(initial=0)):
             return k, [str(v) for v in seq[k + 1]], [str(v) for v in ref]
     return None
@@ -824,7 +943,8 @@ def main(tier):
                             % (name, res[0] + 1, "SOp soft(SOp^H (z + alpha Op^H(y - Op z)), eps*alpha/2)" if p.get("S") is not None
                                else "soft(z + alpha Op^H(y - Op z), eps*alpha/2)",
                                "CheckC13.stepS" if p.get("S") is not None else ("ISTA.step" if rc["mode"] == 0 else "ISTA.fista_step"), res[1], res[2],
-                               "complex" if p["cplx"] else "real", p["eps"], rc["alpha"], p["x0k"], p["R"]),
+                               ("complex" if p["cplx"] else "real") + ("" if p.get("decay") is None else " decay=%s (threshold decay[i]*eps*alpha/2, eps passed %g)"
+                                                                       % (p["decay"], p.get("eps_user", p["eps"]))), p["eps"], rc["alpha"], p["x0k"], p["R"]),
                             {"kind": "step", "problem": pd, "mode": rc["mode"], "niter": len(rc["its"]), "k": res[0], "got": res[1], "expected": res[2]})
             else:
                 R.violation("%s iterates differ from the Coq model but the python reference step agrees (problem %d)" % (name, p["id"]),
@@ -851,6 +971,15 @@ def main(tier):
         for cid, codes in sorted(fail[grp].items()):
             handle_run(cid, codes, idmap[cid])
 
+    nal = 0
+    for rc in recs:
+        if rc["kind"] == "alias":
+            nal += 1
+            if nal <= 5:
+                p = rc["p"]
+                R.violation("%s (%s, m=%d n=%d R=%d eps=%g x0=%s%s)" % (rc["how"], "complex" if p["cplx"] else "real", p["m"], p["n"], p["R"],
+                            p["eps"], p["x0k"], ", with SOp" if p.get("S") is not None else ""),
+                            {"kind": "alias", "problem": prob_dict(p, 0), "mode": rc["mode"], "niter": 30, "finding": rc["how"]})
     nextra = {"columns": 0, "reuse": 0, "raised": 0}
     for rc in recs:
         if rc["kind"] in nextra:
@@ -931,7 +1060,8 @@ def main(tier):
              "non-trivial run = distinct (problem, solver, column) whose iterates move and end non-zero",
         threshold_cases={"real": len(realc), "complex": len(cplxc), "half_zero_pattern": len(halfc)},
         half_bruteforce_float={"checked": nh, "own_convention_failures": len(own), "documented_convention_failures": len(doc)},
-        families={f: sum(1 for p in probs if p.get("family") == f) for f in ("base", "default-alpha", "sop", "reuse")},
+        families={f: sum(1 for p in probs if p.get("family") == f) for f in ("base", "default-alpha", "sop", "reuse", "decay")},
+        held_array_runs=stats.get("held_runs", 0),
         columns_compared=stats["columns_compared"], reuse_vs_fresh_compared=stats["reuse_vs_fresh"],
         problems={"total": len(probs), "complex": sum(1 for p in probs if p["cplx"]), "multi_rhs": sum(1 for p in probs if p["R"] > 1),
                   "x0": {k: sum(1 for p in probs if p["x0k"] == k) for k in ("none", "zeros", "random")},
